@@ -130,6 +130,24 @@ def programs():
                 yield lab + ":foreach-operand", prog([da], [], [("decl", lt, "l", ("list", ty, [a, v2])),
                                                                 ("foreach", ty, "x", "k", ("var", "l"),
                                                                  [("assign", ("var", "l"), ("list", ty, [v2]))] + dump("x", ty))] + dump("l", lt))
+        # a container by value together with a Referenz to one of its parts, in one call: the callee writes through
+        # the Referenz and then reads its value parameter, which it never changes itself (at -O 2 such a parameter may
+        # be passed without a copy only if nothing else can reach the variable)
+        parts = {("L", "Z"): [("element", "Z", lambda c: ("bin", "index", c, ("int", 1)), ("int", 4711))],
+                 ("L", "T"): [("element", "T", lambda c: ("bin", "index", c, ("int", 1)), txt("GEAENDERT"))],
+                 K: [("field-text", "T", lambda c: ("field", "ft", c), txt("NEU")),
+                     ("field-list", ("L", "Z"), lambda c: ("field", "fl", c), ("list", "Z", [("int", 8)])),
+                     ("field-number", "Z", lambda c: ("field", "fz", c), ("int", 31))]}.get(ty, [])
+        for pname, pty, part, newv in parts:
+            f = dict(name="fn_teil", params=[("p", ty, False), ("q", pty, True)], ret="N",
+                     body=[("assign", ("var", "q"), newv)] + dump("p", ty) + [("decl", ty, "kopie", ("var", "p"))] + dump("kopie", ty))
+            call = lambda c: ("expr", ("call", "fn_teil", [("p", c), ("q", part(c))]))
+            yield "%s:%s:part-ref-and-value:global" % (tn, pname), prog([da], [f], [call(a)] + dump("a", ty))
+            f2 = dict(name="fn_lokal", params=[("u", "Z", False)], ret="N",
+                      body=[("decl", ty, "lok", v1), call(("var", "lok"))] + dump("lok", ty))
+            yield "%s:%s:part-ref-and-value:local" % (tn, pname), prog([], [f, f2], [("expr", ("call", "fn_lokal", [("u", ("int", 0))]))])
+            f3 = dict(name="fn_param", params=[("lok", ty, False)], ret="N", body=[call(("var", "lok"))] + dump("lok", ty))
+            yield "%s:%s:part-ref-and-value:parameter" % (tn, pname), prog([da], [f, f3], [("expr", ("call", "fn_param", [("lok", a)]))] + dump("a", ty))
         # a field of a Kombination as Referenz argument
         if ty in ("T", ("L", "Z")):
             fname = "ft" if ty == "T" else "fl"
@@ -147,7 +165,7 @@ def check(res, tier):
     model = build_model()
     ddp = pipeline.build()
     quick = tier == "quick"
-    cfgs = [pipeline.Config(opt=1)] if quick else [pipeline.Config(opt=0), pipeline.Config(opt=2), pipeline.Config(opt=1, asan=True)]
+    cfgs = [pipeline.Config(opt=1), pipeline.Config(opt=2)] if quick else [pipeline.Config(opt=0), pipeline.Config(opt=2), pipeline.Config(opt=1, asan=True)]
     labelled = list(programs())
     st = evalcorr.judge_programs(res, ddp, model, [p for _, p in labelled], cfgs, "alias-matrix", max_report=5)
     for lab, _ in labelled:
@@ -165,7 +183,7 @@ def check(res, tier):
     res.exhaustive = True
     res.rule = ("holder types {Text, Zahlen Liste, Text Liste, Kombination (Zahl, Text, Liste fields), Variable} x copy operation "
                 "{initialise, assign, value argument, Referenz argument, same variable twice, Referenz+value, global touched by the "
-                "callee, return, store into list, assign to list element, list element / field as Referenz argument, for-each variable, "
+                "callee, container by value + Referenz to its element/field in one call (caller's global, local, parameter), return, store into list, assign to list element, list element / field as Referenz argument, for-each variable, "
                 "for-each operand reassigned in the body} x mutation {whole value, element/character, field, nested element, compound, "
                 "append}, mutating either side and printing every holder; plus random programs with Referenz parameters")
     res.assumptions += ["lists of lists are outside the generator (no source spelling for the type; literal nesting crashes the code generator: C02 known finding)"]
